@@ -31,8 +31,10 @@ class BayesianEstimator(ParameterEstimator):
                     f"Bayesian Parameter Estimation works only on models with all observed variables. Found latent variables: {model.latents}"
                 )
 
-            if isinstance(model, DAG):
-                model = BayesianNetwork(model.edges())
+            if not isinstance(model, BayesianNetwork):
+                bn = BayesianNetwork(model.edges())
+                bn.add_nodes_from(model.nodes())
+                model = bn
 
         super(BayesianEstimator, self).__init__(model, data, **kwargs)
 
